@@ -219,11 +219,17 @@ type app struct {
 	store     *proposal.ProposalStore[H]
 	cfg       *Cfg
 	lostValid []uint64 // values judged invalid now although an earlier process instance held them
+	restored  []uint64 // lost values whose build result arrived again in this process instance
 }
 
 func (a *app) storeResult(v, h uint64) {
 	if a.store == nil {
 		return
+	}
+	for _, l := range a.lostValid {
+		if l == v {
+			a.restored = append(a.restored, v)
+		}
 	}
 	a.store.Store(hashOf(v), &builder.BuildResult{PreConfirmed: &pending.PreConfirmed{
 		Block: &core.Block{Header: &core.Header{Number: h}}}})
@@ -282,9 +288,11 @@ type smCall struct {
 	In      string // entry token (wal) or input token
 	HBefore uint64
 	HAfter  uint64
-	Acts    []string
+	Acts    []string // what the driver gets to execute
+	Sync    string   // the TriggerSync action the state machine returned, if any (kept from the driver, see smWrap.call)
 	Input   int
 	Replay  bool
+	Dump    string // state of the machine after the call
 }
 
 type epoch struct {
@@ -306,6 +314,7 @@ type epoch struct {
 	appended []string // entry tokens in SetWALEntry order
 	timers   []types.Timeout
 
+	noDumps    bool
 	failAt     int    // fault injection: the effect with this index fails (flush error / commit refused); -1 = none
 	failedAt   int    // number of effects performed when the injected fault hit (-1: not yet)
 	closedSnap string // image after a regular stop (Run returned, store closed)
@@ -359,10 +368,22 @@ func (w *smWrap) call(kind, in string, replay bool, f func() []actions.Action[V,
 	acts := f()
 	c := &ep.calls[len(ep.calls)-1]
 	c.HAfter = uint64(ep.real.Height())
+	// A TriggerSync action is recorded and NOT handed to the driver: driver.triggerSync would start
+	// a block fetch over p2p (no fetcher here). What the state machine did with the input that
+	// produced it (vote counted, nothing logged) is what this harness looks at.
+	out := acts[:0:0]
 	for _, a := range acts {
+		if _, isSync := a.(*actions.TriggerSync); isSync {
+			c.Sync = actionTok(a)
+			continue
+		}
 		c.Acts = append(c.Acts, actionTok(a))
+		out = append(out, a)
 	}
-	return acts
+	if ep.cfg.AppMode == "stable" && !ep.noDumps {
+		c.Dump = dumpSM(ep.real)
+	}
+	return out
 }
 
 func (w *smWrap) ProcessStart(r types.Round) []actions.Action[V, H, A] {
@@ -594,6 +615,8 @@ func timeoutChan(d any) chan types.Timeout {
 
 const stepDeadline = 20 * time.Second
 
+var errNoTimeoutChannel = fmt.Errorf("the driver's timeout channel was not found (reflect lookup by type): timeouts cannot be injected")
+
 // startEpoch boots a process instance on a copy of the crash image `image` ("" = empty disk) with
 // the chain at height `chain`, and waits until replay and the first ProcessStart are done.
 func startEpoch(cfg *Cfg, base, image string, chain, epochNo uint64, failAt int) (*epoch, error) {
@@ -717,7 +740,7 @@ func (ep *epoch) feed(idx int, in Input) error {
 		}
 	case "t":
 		if ep.timeoutCh == nil {
-			return nil
+			return errNoTimeoutChannel
 		}
 		select {
 		case ep.timeoutCh <- types.Timeout{Step: types.Step(in.Step), Height: types.Height(in.H), Round: types.Round(in.R)}:
